@@ -59,6 +59,9 @@ DIRECTED_C08 = [     # unconditional (seventh round): a root that is defined bot
     ('{ a = { x = 1; }; a.b = 2; }\n', ('set', 'a', '5')), ('{ a = { x = 1; }; a.b = 2; }\n', ('rm', 'a')), ('{ a = { x = 1; }; a.b = 2; }\n', ('set', '@a', '5')),
     ('{ a.b = 2; a = { x = 1; }; }\n', ('set', 'a', '5')), ('{ a.b = 2; a = { x = 1; }; }\n', ('rm', 'a')),
     ('{\n  s = {\n    x = 1;\n  };\n  s.b.c = 2;\n  t = 1;\n}\n', ('set', 's', '5')), ('{\n  s = {\n    x = 1;\n  };\n  s.b.c = 2;\n  t = 1;\n}\n', ('rm', 's')),
+    # tenth round: a scope selector deeper than the document's let layers (a negative index still names a layer)
+    ('let\n  x = 1;\nin\n{\n  a = x;\n}\n', ('rm', '@@x')), ('let\n  x = 1;\nin\n{\n  a = x;\n}\n', ('set', '@@x', '2')), ('let\n  a = 1;\nin\nlet\n  b = 2;\nin\n{\n  c = a;\n}\n', ('rm', '@@@b')),
+    ('let\n  a = 1;\nin\nlet\n  b = 2;\nin\n{\n  c = a;\n}\n', ('rm', '@@@@a')), ('let\n  a = 1;\nin\nlet\n  b = 2;\nin\n{\n  c = a;\n}\n', ('set', '@@@a', '3')), ('{\n  a = 1;\n}\n', ('rm', '@a')), ('{\n  a = 1;\n}\n', ('rm', '@@a')),
     ('{ pkgs }:\n{\n  a = {\n    x = 1;\n  };\n  a.b = 2;\n}\n', ('set', 'a', '5')), ('{ pkgs }:\n{\n  a = {\n    x = 1;\n  };\n  a.b = 2;\n}\n', ('rm', 'a')),
 ]
 def run_C08():
@@ -114,8 +117,22 @@ DIRECTED_TREE_DOCS = [      # eighth round: attrpath families that share a prefi
     '{\n  a.b.c.d.e = 1;\n  a.b.c.d.f = 2;\n  a.b.c.g = 3;\n  a.b.h = 4;\n}\n',
     '{\n  a.c.d = 1;\n  e = 3;\n}\n', '{\n  a.b.c.x = 1;\n  e = 3;\n}\n',
     '{ config, pkgs, ... }:\n{\n  services.nginx.enable = true; # keep on\n  services.proxy.port = 80;\n}\n',
+    # tenth round: comments in the places a binding keeps them — between the value and the `;`, after the `;`, above the binding — and edits of OTHER bindings, repeated on one object
+    '{\n  a = 1\n  # why\n  ;\n  b = 2;\n}\n', '{\n  a = 1 /* v */; # t\n  b = 2;\n  # end\n}\n', '{ pkgs }:\n{\n  a = 1\n  # why\n  ;\n  b = 2; # two\n}\n', 'f {\n  a = 1\n  # why\n  ;\n  b = 2;\n}\n',
+]
+ALIAS_SCRIPTS = [    # the same VALUE text given twice (sixth round, made unconditional in the tenth): the two bindings never share a value object
+    [('set', 'm', '{ }'), ('set', 'n', '{ }'), ('set', 'm.k', '1')], [('set', 'm', '{ x = 1; }'), ('set', 'n', '{ x = 1; }'), ('rm', 'm.x')],
+    [('set', 'm', '{ x = 1; }'), ('set', 'n', '{ x = 1; }'), ('set', 'n.x', '2'), ('set', 'm.y', '3')], [('set', 'p.q', '{ }'), ('set', 'r', '{ }'), ('set', 'r.z', '1'), ('set', 'p.q.w', '2')],
 ]
 def directed_tree_jobs():
+    for sc in ALIAS_SCRIPTS:
+        for text in ('{\n  a = 1;\n}\n', '{ a = 1; }\n', '{ pkgs }:\n{\n  a = 1;\n}\n'): yield text, sc
+    for shape, (pre, suf, _sc) in WRAPPERS.items():          # every wrapper the edit looks through, unconditionally (tenth round)
+        body = '{\n  a = 1;\n  keep = 7;\n}'
+        if shape in INDENTED_BODY: body = body.replace('\n', '\n  ')
+        text = pre + body + suf + ('\n' if not (pre + body + suf).endswith('\n') else '')
+        if parse(text).rebuild() != text: continue
+        for sc in ([('set', 'a', '2')], [('rm', 'keep')], [('set', 'b.c', '2'), ('set', 'a', '"x"'), ('rm', 'keep')]): yield text, sc
     for text in DIRECTED_TREE_DOCS:
         tree, _ = read_tree(text)
         for k in tree:
@@ -126,7 +143,36 @@ def directed_tree_jobs():
             if len(k) >= 2:
                 yield text, [('set', pstr(k[:-1] + ('fresh',)), '1'), ('rm', pstr(k[:-1] + ('fresh',)))]
                 yield text, [('set', pstr(k[:1] + ('mid',) + k[1:]), '9'), ('set', pstr(k[:1] + ('mid',) + k[1:]), '5')]       # the tail of the new path exists one level up
+def cross_document_alias():
+    """a VALUE text used in one document and edited there must arrive unchanged in the next document (one process, two documents)"""
+    for val, below, newv in [('{ enable = true; }', 'cfg.enable', 'false'), ('{\n  x = 1;\n}', 'cfg.y', '2'), ('{ }', 'cfg.z', '1')]:
+        count('cross-document-alias')
+        first = parse('{\n  a = 1;\n}\n'); apply(first, ('set', 'cfg', val)); apply(first, ('set', below, newv))
+        second = parse('{\n  b = 1;\n}\n'); r = apply(second, ('set', 'cfg', val))
+        want = apply(parse('{\n  b = 1;\n}\n'), ('set', 'cfg', val + ' '))       # the same value spelled with a trailing blank: never seen before by any cache
+        if r[0] != 'ok' or want[0] != 'ok' or read_tree(r[1]) != read_tree(want[1]): bad('a VALUE used and edited in one document arrives changed in another document', doc='{\n  b = 1;\n}\n', ops=[['set', 'cfg', val]], out=r[1] if r[0] == 'ok' else r, earlier=[['set', 'cfg', val], ['set', below, newv]])
+def comments_inside_binding(text, path):
+    """wording of the comments that lie inside the binding(s) at or below `path` (tree-sitter spans), read like comments_of reads them"""
+    import nixread
+    root = nixread.ts(text); sn = nixread.set_node(root); out = []
+    def walk(setn, prefix):
+        for b in nixread.bindings(setn):
+            if b.type != 'binding': continue
+            names = nixread.attr_names(b.child_by_field_name('attrpath')) or [b.child_by_field_name('attrpath').text.decode()]
+            full = prefix + tuple(names); val = b.child_by_field_name('expression')
+            if full[:len(path)] == tuple(path) or tuple(path)[:len(full)] == full and len(full) == len(path):
+                if full[:len(path)] == tuple(path):
+                    stack = [b]
+                    while stack:
+                        n = stack.pop()
+                        if n.type == 'comment': out.append(n.text.decode().strip())
+                        stack.extend(n.children)
+                    continue
+            if tuple(path)[:len(full)] == full and val.type in ('attrset_expression', 'rec_attrset_expression'): walk(val, full)
+    if sn is not None: walk(sn, ())
+    return out
 def run_tree(check):
+    cross_document_alias()
     jobs = [(t, {'shape': 'bare'}, sc) for t, sc in directed_tree_jobs()] + [(None, None, None)] * N
     for text, meta, script in jobs:
         if text is None: text, meta = gen_doc(R, scoped=False, quoted=0.15, tiny=0.12, attrpath_nested=R.random() < 0.3)
@@ -182,13 +228,19 @@ def run_tree(check):
                 others1 = [k for k in tree1 if k[:len(p)] != p and not (k == p[:len(k)])]
                 if [k for k in others1 if k in tree0] != [k for k in others0 if k in tree1]: bad('order of the other bindings changed', out=out, **case)
                 c0, c1 = comments_of(cur_prev), comments_of(out)
-                if op[0] == 'set' and c0 != c1 and not any(k[:len(p)] == p for k in tree0 if False):
-                    replaced_has_comment = False
-                    if c0 != c1 and len(c1) < len(c0):
-                        # comments inside a replaced set value may go; nothing else may
-                        s = set_node(ts(cur_prev))
-                        replaced_has_comment = True
-                    if not replaced_has_comment: bad('comments changed by a set', before=c0, after=c1, out=out, **case)
+                if op[0] == 'set' and c0 != c1:
+                    # comments inside the binding that is replaced may go with its old value; every other comment stays, once, worded as it was
+                    # (tenth round: the earlier rule accepted ANY loss of comments)
+                    inside = comments_inside_binding(cur_prev, p)
+                    lost = list(c0)
+                    for c_ in c1:
+                        if c_ in lost: lost.remove(c_)
+                    gained = list(c1)
+                    for c_ in c0:
+                        if c_ in gained: gained.remove(c_)
+                    for c_ in inside:
+                        if c_ in lost: lost.remove(c_)
+                    if lost or gained: bad('comments outside the addressed binding changed by a set', lost=lost, gained=gained, out=out, **case)
             if check == 'C06':
                 again = parse(out).rebuild()
                 if again != out: bad('text emitted by a successful edit is not a fixed point of parse/rebuild', out=out, again=again, **case)
@@ -226,10 +278,13 @@ def run_C09():
     for it in range(N):
         shape = R.choice(['bare', 'lambda_formals', 'lambda_id', 'paren'])
         n = R.randrange(0, 4); layers = gen_layers(R, n)
-        for L in layers:          # eighth round: bindings written in attrpath form inside a let layer (`cfg.a = 1;`), addressed as @cfg.a
+        for li, L in enumerate(layers):          # eighth round: bindings written in attrpath form inside a let layer (`cfg.a = 1;`), addressed as @cfg.a
             if R.random() < 0.35:
-                L['cfg.a'] = str(R.randrange(9))
-                if R.random() < 0.5: L['cfg.b'] = '"b"'
+                fam = {'cfg.a': str(R.randrange(9))}
+                if R.random() < 0.6: fam['cfg.b'] = '"b"'
+                # tenth round: the family stands before, after or between the plain bindings (values and render order are not parallel lists)
+                items = list(L.items()); cut = R.choice([0, 0, len(items), R.randrange(len(items) + 1)])
+                layers[li] = dict(items[:cut] + list(fam.items()) + items[cut:])
         body = R.choice(['{\n  x = 1;\n  y = [\n    1\n  ];\n}', '{\n  x = 1;\n  v = 0;\n  a = "body";\n}', '{\n  inherit w src;\n  x = 1;\n}', '{\n  inherit (pkgs) v;\n  x = 1;\n}'])         # the last two only INHERIT names that scoped edits use: the let layer is still what `@name` addresses
         body_keys = ('v', 'a') if 'v = 0' in body else ()
         jt = [R.choice(['# joint %d\n' % i, '/* j%d */\n' % i]) if R.random() < 0.3 else '' for i in range(n)]
@@ -323,6 +378,40 @@ def run_C19():
                 count('directed-scoped-set-rm'); a = parse(text); r1 = apply(a, ('set', sel, '5'))
                 r2 = apply(parse(r1[1]) if (reparse and r1[0] == 'ok') else a, ('rm', sel))
                 if r1[0] != 'ok' or r2[0] != 'ok' or r2[1] != text: bad('set of a fresh scope-prefixed path then rm does not restore the text', doc=text, ops=[['set', sel, '5'], ['rm', sel]], got=r2[1] if r2[0] == 'ok' else r2)
+    # unconditional core for the deep attrpath documents (made so in the tenth round: under a random law a seed of the eighth round went unseen once the
+    # generator changed): every leaf — the same set twice on the printed text equals once; rm then set restores the tree
+    for text in DIRECTED_TREE_DOCS:
+        tr0 = read_tree(text)
+        if tr0 is None or parse(text).rebuild() != text: continue
+        for k in tr0[0]:
+            if any(s_.startswith('<inherit') for s_ in k): continue
+            pth = pstr(k); count('directed-deep-laws')
+            r1 = apply(parse(text), ('set', pth, '7')); 
+            if r1[0] != 'ok': continue
+            r2 = apply(parse(r1[1]), ('set', pth, '7'))
+            if r2[0] != 'ok' or r2[1] != r1[1]: bad('the same set applied twice differs from once', doc=text, ops=[['set', pth, '7']] * 2, once=r1[1], twice=r2[1] if r2[0] == 'ok' else r2); continue
+            v0 = tr0[0][k]
+            if v0.startswith('{') or '#' in v0 or '/*' in v0: continue
+            r3 = apply(parse(text), ('rm', pth))
+            if r3[0] != 'ok': bad('rm of an existing leaf is refused', doc=text, ops=[['rm', pth]], got=r3); continue
+            r4 = apply(parse(r3[1]), ('set', pth, v0)); t4 = read_tree(r4[1]) if r4[0] == 'ok' else None
+            if t4 is None or not tree_matches(t4[0], tr0[0], k): bad('rm then set of the removed value does not restore the attribute tree', doc=text, ops=[['rm', pth], ['set', pth, v0]], got=r4[1] if r4[0] == 'ok' else r4)
+    # tenth round: a quoted segment that is spelled like a plain identifier, below an explicit set — the same path must find the same binding every time
+    for text in ('{\n  a = 1;\n}\n', '{\n  programs = {\n    "git" = {\n      enable = true;\n    };\n    "vim" = {\n      enable = false;\n    };\n  };\n}\n'):
+        for pth in ('programs."git".enable', 'programs."vim".enable', 'programs."x y".enable', 'programs."with".enable', '"programs"."git"."enable"'):
+            count('directed-quoted-twice')
+            r1 = apply(parse(text), ('set', pth, 'false'))
+            if r1[0] != 'ok': continue
+            r2 = apply(parse(r1[1]), ('set', pth, 'false'))
+            if r2[0] != 'ok' or r2[1] != r1[1]: bad('the same set applied twice differs from once', doc=text, ops=[['set', pth, 'false']] * 2, once=r1[1], twice=r2[1] if r2[0] == 'ok' else r2); continue
+            r3 = apply(parse(r1[1]), ('rm', pth))
+            if r3[0] != 'ok': bad('rm of a path a set has just written is refused', doc=text, ops=[['set', pth, 'false'], ['rm', pth]], got=r3); continue
+            r4 = apply(parse(r3[1]), ('set', pth, 'false'))
+            if r4[0] != 'ok' or read_tree(r4[1]) != read_tree(r1[1]): bad('rm then set of the removed value does not restore the attribute tree', doc=text, ops=[['set', pth, 'false'], ['rm', pth], ['set', pth, 'false']], got=r4[1] if r4[0] == 'ok' else r4)
+        a_ = apply(parse(text), ('set', 'programs."git".enable', 'false')); b_ = apply(parse(text), ('set', 'programs."vim".enable', 'true'))
+        if a_[0] == 'ok' and b_[0] == 'ok':
+            ab = apply(parse(a_[1]), ('set', 'programs."vim".enable', 'true')); ba = apply(parse(b_[1]), ('set', 'programs."git".enable', 'false'))
+            if ab[0] == 'ok' and ba[0] == 'ok' and read_tree(ab[1]) != read_tree(ba[1]): bad('two sets on different paths do not commute', doc=text, pq=ab[1], qp=ba[1])
     for it in range(N):
         text, meta = gen_doc(R, scoped=True, maxlayers=2, layer_refs=0.5)
         if it < 8 * len(DIRECTED_TREE_DOCS): text, meta = DIRECTED_TREE_DOCS[it % len(DIRECTED_TREE_DOCS)], {'shape': 'bare', 'layers': [], 'refs': []}      # deep attrpath families under every law
